@@ -123,6 +123,11 @@ class Gen:
         if s["k"] in ("setitem", "aug", "uout", "setshape") and self.tracking():
             # a recorded in-place update: the target's (new) memory is the output of an operation, too
             self.unguarded.add(s["t"] if "t" in s else s["out"])
+            if not self.guard_on():
+                # recorded with the guard off: the operands' arrays are not protected either (as for `op` above)
+                if isinstance(s.get("val"), dict) and "h" in s["val"]:
+                    self.unguarded.add(s["val"]["h"])
+                self.unguarded.update(o["h"] for o in s.get("a", []) if isinstance(o, dict) and "h" in o)
         if s["k"] == "op" and self.tracking() and not view:
             # the result of a recorded operation: its memory is not locked until it is consumed, so an UNTRACKED in-place
             # write could change it behind the graph's back (the graph would still differentiate through its creator)
